@@ -76,8 +76,8 @@ def setup():
 
 # --------------------------------------------------------------------------- implementation side
 def make_instance(det):
-    x, y, score, animal = det
-    sz = 3 + (animal % 3)
+    x, y, score, animal = det[:4]
+    sz = det[4] if len(det) > 4 else 3 + (animal % 3)
     pts = _np.array([[x, y], [x + sz, y], [x, y + sz]], dtype=float)
     return _sio.PredictedInstance.from_numpy(pts, _skel, point_scores=_np.ones(3), score=float(score))
 
@@ -553,7 +553,9 @@ def replay_witnesses(chk, pid_map=None):
             elif bad:   # fails, but not in the way the finding describes: an ordinary violation
                 chk.fail(f"witness history of {fid_} fails differently: {bad[0][1]}", case, bad, sigs)
         flags[fid_] = not fails
-        chk.known_replay((pid_map or {}).get(fid_, fid_), still_fails=fails, detail="; ".join(details))
+        target = (pid_map or {}).get(fid_, fid_)
+        if target is not None:
+            chk.known_replay(target, still_fails=fails, detail="; ".join(details))
     return (flags["F-C09a"], flags["F-C09b"], flags["F-C09c"])
 
 
@@ -677,7 +679,7 @@ def main(chk):
     cfgs = all_configs()
     for cfg in cfgs:
         cases.append(gen_case(chk.rng, cfg=cfg, max_frames=8))
-    for _ in range(chk.n(220, 6000)):
+    for _ in range(chk.n(500, 6000)):
         cases.append(gen_case(chk.rng))
     ndis = process(chk, cases, fixes)
     if not all(fixes):
